@@ -230,7 +230,7 @@ class Gen:
 
     def __init__(self, rng, insts=()):
         self.rng = rng
-        self.vars = {}      # name -> type
+        self.vars = {}      # (schematic?, name) -> type
         self.n = 0
         self.insts = list(insts)    # instances of further constants: (name, [argument types], result type)
 
@@ -242,13 +242,22 @@ class Gen:
         return t
 
     def var_of(self, T, svar=False):
-        cands = [n for n, (U, s) in self.vars.items() if U == T and s == svar]
-        if cands and self.rng.random() < 0.7:
-            n = self.rng.choice(cands)
+        """A (schematic) variable of type T.  Ordinary and schematic variables draw their names from ONE pool: a
+        schematic variable may carry the name of an ordinary one (and vice versa), at the same or at another type;
+        within a kind a name has one type."""
+        rng = self.rng
+        cands = [n for (s, n), U in self.vars.items() if U == T and s == svar]
+        if cands and rng.random() < 0.7:
+            n = rng.choice(cands)
         else:
-            n = ("s%d" if svar else "v%d") % self.n
-            self.n += 1
-            self.vars[n] = (T, svar)
+            other = [(n, U) for (s, n), U in self.vars.items() if s != svar and (svar, n) not in self.vars]
+            same = [n for n, U in other if U == T]
+            if other and rng.random() < 0.4:
+                n = rng.choice(same) if same and rng.random() < 0.5 else rng.choice(other)[0]
+            else:
+                n = "v%d" % self.n
+                self.n += 1
+            self.vars[(svar, n)] = T
         return ["svar" if svar else "var", n, T]
 
     def term(self, T, depth, env):
@@ -263,7 +272,7 @@ class Gen:
             c = self.const_leaf(T)
             if c is not None and rng.random() < 0.4:
                 return c
-            return self.var_of(T, svar=rng.random() < 0.1)
+            return self.var_of(T, svar=rng.random() < 0.2)
         choices = ["app", "app"]
         if is_fun(T):
             choices += ["abs"] * 4 + ["comp"]
@@ -389,7 +398,30 @@ def eq0(a, b):
     return ["comb", ["comb", c0("equals"), a], b]
 
 
+def xs(i, T=None):
+    return ["svar", "x%d" % i, T if T is not None else NONE]
+
+
 def atom(rng, nv):
+    a = atom0(rng, nv)
+    if rng.random() < 0.25:
+        # some of the variable occurrences become SCHEMATIC variables of the same name
+        a = some_schematic(a, rng)
+    return a
+
+
+def some_schematic(t, rng):
+    k = t[0]
+    if k == "var":
+        return ["svar", t[1], t[2]] if rng.random() < 0.5 else t
+    if k == "comb":
+        return ["comb", some_schematic(t[1], rng), some_schematic(t[2], rng)]
+    if k == "abs":
+        return ["abs", t[1], some_schematic(t[2], rng)]
+    return t
+
+
+def atom0(rng, nv):
     i, j = rng.randrange(nv), rng.randrange(nv)
     k = rng.choice("AAELLFFGPNBMS")
     if k == "A":
@@ -464,8 +496,11 @@ def random_mode(n, out_path, seed):
             ctx = NOCTX
             if rng.random() < 0.4:      # some of the variables declared: bare and annotated uses of declared variables
                 ctx = {"vars": [["x%d" % v, rng.choice([NAT, BOOL, BOOL, fun(NAT, BOOL), lst(NAT)])]
-                                for v in range(nv) if rng.random() < 0.5], "svars": []}
-            log.case("randcs", "decl" if ctx["vars"] else "none", bool(ctx["vars"]), conj_of(atoms), ctx, NONE)
+                                for v in range(nv) if rng.random() < 0.5],
+                       "svars": [["x%d" % v, rng.choice([NAT, BOOL, BOOL, fun(NAT, BOOL), lst(NAT)])]
+                                 for v in range(nv) if rng.random() < 0.3]}
+            decl = bool(ctx["vars"] or ctx["svars"])
+            log.case("randcs", "decl" if decl else "none", decl, conj_of(atoms), ctx, NONE)
     # (an event of a history is reproduced only by re-running the history: the event records how)
     history_mode(max(600, n // 2), log, seed, {"gen": {"mode": "random", "n": n, "seed": seed}})
     log.close()
@@ -522,7 +557,7 @@ def history_mode(n, log, seed, gen):
                 continue
             g = Gen(rng, HIST_INST[k])
             if k == 1:
-                g.vars["hv"] = (rng.choice([NAT, LN, BOOL]), False)
+                g.vars[(False, "hv")] = rng.choice([NAT, LN, BOOL])
             inst = rng.choice(HIST_INST[k])
             if rng.random() < 0.5:
                 t = g.inst_app(inst, rng.choice([1, 2, 3]), [])
